@@ -185,6 +185,11 @@ ALLOWED_CORE = re.compile(r'^typstyle_core::Typstyle::(new|format_content|format
 def r2_single_funnel(w):
     r = RuleResult('C16.R2', 'CLI reaches the library only via Typstyle::new(to_config(args.style)).format_*; all library entries funnel into one render entry', floor=5)
     c = Cli(w)
+    for ok, cons, key, why, loc in input_untouched_obligations(w, c):
+        if ok:
+            r.ok(cons, why)
+        else:
+            r.bad(cons, key, why, loc)
     n = 0
     for b in c.fns():
         v = None
@@ -201,13 +206,8 @@ def r2_single_funnel(w):
             if p.endswith('Typstyle::new'):
                 v = v or c.view(b)
                 d = v.describe_operand(t['args'][0])
-                # the mapping's result, possibly kept in a local and cloned per use (`let config = args.style.to_config(); .. Typstyle::new(config.clone())`)
-                tc = _to_config(c)
-                srcs = v.pv.through(v.pv.origins_operand(t['args'][0]), re.compile(r'Clone>::clone$|Clone::clone$|Deref>::deref$|Deref::deref$|::borrow$'))
-                via_mapping = bool(srcs) and all(o[0] == 'call' and not o[2] and resolved_id(v.pv.call_term(o)) == tc.id
-                                                 and v.describe_operand(v.pv.call_term(o)['args'][0]) in ('field:typstyle::cli::CliArguments.style', '&field:typstyle::cli::CliArguments.style')
-                                                 for o in srcs)
-                if re.match(r'^call:typstyle::fmt::\{impl#\d+\}::to_config\(field:typstyle::cli::CliArguments\.style\)$', d) or via_mapping:
+                via_mapping, _why = c.config_ok(b, t['args'][0])
+                if via_mapping:
                     r.ok(cons, 'configured by to_config(args.style)')
                 else:
                     r.bad(cons, '%s|config' % b.short, 'Typstyle::new in %s is configured from %s, not from the option mapping' % (b.short, d), b.loc(t['span']))
@@ -225,6 +225,48 @@ def r2_single_funnel(w):
                 r.bad({'library_entry': inst['construct']['entry']}, 'funnel|%s' % inst['construct']['entry'],
                       'library entry %s does not funnel into the single render entry: %s' % (inst['construct']['entry'], inst['why']))
     return r
+
+
+def input_untouched_obligations(w, c):
+    """[(ok, construct, key, why, loc)]: a String that holds what was read (file / stdin) is not modified in place before it is formatted, compared and
+    printed: the only `&mut` use is the read that fills it.  (`content.drain(..)`, `retain`, `truncate`, `make_ascii_..` after the read would make the
+    front-end format something other than the input.)"""
+    out = []
+    for b in c.fns():
+        v = c.view(b)
+        for l in range(1, len(b.locals)):
+            if b.locals[l]['ty']['s'] != 'std::string::String' or l <= b.arg_count:
+                continue
+            ors = v.pv._origins_local(l, frozenset())
+            if not ors:
+                continue
+            try:
+                tags = c.classify_text(b, ors)
+            except Exception:
+                continue
+            if tags != {'input'}:
+                continue
+            for bi, blk in enumerate(b.blocks):
+                if blk['cleanup']:
+                    continue
+                for st in blk['stmts']:
+                    if st['s'] == 'assign' and st['rv']['r'] in ('ref', 'rawptr') and st['rv'].get('mut') and st['rv']['p']['l'] == l:
+                        # who receives the borrow?
+                        tl = st['p']['l']
+                        users = [t for _, t in b.calls() if any(a.get('o') in ('move', 'copy') and a['p']['l'] == tl for a in t['args'])]
+                        for t in users:
+                            p_ = resolved_path(t) or callee_path(t) or ''
+                            cons = {'fn': b.short, 'input_text': b.names.get(l, '_%d' % l), 'mutable_use': p_}
+                            if re.search(r'read_to_string$|Read>?::read_to_end$', p_):
+                                out.append((True, cons, None, 'filled by the read', None))
+                            elif re.search(r'Deref(Mut)?>?::deref(_mut)?$|::as_mut_str$', p_):
+                                out.append((False, cons, '%s|input-mutated|%s' % (b.short, p_.rsplit('::', 1)[-1]), 'the input text is handed out mutably in %s' % b.short, b.loc(t['span'])))
+                            else:
+                                out.append((False, cons, '%s|input-mutated|%s' % (b.short, p_.rsplit('::', 1)[-1]),
+                                            'the text read from the file / stdin is modified in place by `%s` in %s before it is formatted: this front-end formats (and compares, '
+                                            'writes back, echoes) something other than its input, and disagrees with the library and the other front-ends on such inputs' % (p_, b.short),
+                                            b.loc(t['span'])))
+    return out
 
 
 def r3_bytes_out(w):
@@ -341,11 +383,18 @@ def r3_bytes_out(w):
             for s in blk['stmts']:
                 if s['s'] == 'assign' and s['rv']['r'] == 'agg' and s['rv'].get('adt') == 'typstyle::fmt::FormatResult':
                     v = c.view(fb)
-                    tags = c.classify_text(fb, v.pv.origins_operand(s['rv']['ops'][0]))
                     vn = s['rv']['vname']
-                    want = {'input'} if vn == 'Erroneous' else {'formatted'}
+                    if not s['rv']['ops']:
+                        # a variant without payload (`Erroneous` as a unit variant: the caller still owns the input and prints that - judged at the print)
+                        r.ok({'fn': fb.short, 'constructs': 'FormatResult::' + vn, 'payload': []}, 'no payload')
+                        tags = want = set()
+                    else:
+                        tags = c.classify_text(fb, v.pv.origins_operand(s['rv']['ops'][0]))
+                        want = {'input'} if vn == 'Erroneous' else {'formatted'}
                     cons = {'fn': fb.short, 'constructs': 'FormatResult::' + vn, 'payload': sorted(tags)}
-                    if tags == want:
+                    if not s['rv']['ops']:
+                        pass
+                    elif tags == want:
                         r.ok(cons, 'payload is the %s text' % next(iter(want)))
                     else:
                         r.bad(cons, '%s|payload|%s' % (fb.short, vn), 'FormatResult::%s carries %s, expected %s' % (vn, sorted(tags), sorted(want)), fb.loc(s['span']))
